@@ -138,7 +138,11 @@ loop:
 }
 
 func (t *tracer) Send(trace ITrace) {
-	t.traces <- trace
+	select {
+	case t.traces <- trace:
+	case <-t.done:
+		// the tracer has terminated: nobody is left to deliver the trace to
+	}
 }
 
 func (t *tracer) RegisterSender() ISenderHandle {
